@@ -12,6 +12,26 @@ while args and args[0].startswith("--"):
     if args[0] == "--tier": tier = args[1]
     if args[0] == "--ids": ids = args[1].split(",")
     args = args[2:]
+auto = os.environ.get("BENIGN_AUTO") == "1"
+def relevant(d):
+    """with BENIGN_AUTO=1: the checks whose subject the patch touches (by file), plus the property it was written around"""
+    files = [l[6:].strip() for l in open(f"{d}/patch.diff") if l.startswith("+++ b/")]
+    want = set()
+    m = os.path.basename(d.rstrip("/"))[:3]
+    if m.startswith("C"): want.add(m)
+    for f in files:
+        if "passage-protocol/src/connection" in f or "cookie" in f or "passage-protocol/src/error" in f or "passage-protocol/src/lib" in f or "metrics" in f or "keep_alive" in f or "router" in f or "frame" in f:
+            want |= {f"C{i:02d}" for i in range(1, 11)} | {"C14"}
+        if "listener" in f or "rate_limiter" in f or "proxy" in f:
+            want |= {"C02", "C08", "C13", "C14", "C15", "C16", "C17"}
+        if "crypto" in f: want |= {"C01", "C04", "C05", "C06", "C08", "C11"}
+        if "passage-packets" in f: want |= {"C04", "C06", "C08", "C09"}
+        if "passage-adapters/src" in f: want |= {"C03", "C07", "C11", "C18"}
+        if "grpc" in f: want |= {"C19"}
+        if "agones" in f: want |= {"C20"}
+        if "http" in f: want |= {"C11", "C12", "C01"}
+        if f.startswith("src/"): want |= {"C03", "C14", "C15", "C17", "C18", "C19", "C20", "C11"}
+    return sorted(want)
 q = queue.Queue()
 for d in args:
     if os.path.exists(f"{d}/patch.diff"):
@@ -22,7 +42,8 @@ def worker(slot):
         try: d = q.get_nowait()
         except queue.Empty: return
         name = os.path.basename(d.rstrip("/"))
-        c = subprocess.run(["/verif/tools/slot.sh", "runall", slot, f"{d}/patch.diff", tier] + ids, capture_output=True, text=True)
+        run_ids = relevant(d) if auto else ids
+        c = subprocess.run(["/verif/tools/slot.sh", "runall", slot, f"{d}/patch.diff", tier] + run_ids, capture_output=True, text=True)
         res = {}
         for l in c.stdout.splitlines():
             p = l.split(" ", 2)
